@@ -36,10 +36,63 @@ def _is_insert(n, helpers):
     return False
 
 
+MUST_RECALC = set()  # names of group-collection methods every path of which recalculates (computed per run)
+
+
 def _is_recalc(n):
     if not (isinstance(n, ast.Call) and isinstance(n.func, ast.Attribute)):
         return False
-    return n.func.attr in ("_recalculate_extents", "recalculate_extents")
+    if n.func.attr in ("_recalculate_extents", "recalculate_extents"):
+        return True
+    return n.func.attr in MUST_RECALC and dotted(n.func.value) in ("self", "self._shapes", "super()")
+
+
+def always_recalcs(fnode):
+    """True if every path from entry to a normal exit of the function passes a recalculation call."""
+    def block(stmts, done):
+        for st in stmts:
+            done, live = stmt(st, done)
+            if not live:
+                return done, False
+        return done, True
+
+    bad = []
+
+    def has(node):
+        return any(_is_recalc(n) for n in ast.walk(node))
+
+    def stmt(st, done):
+        if isinstance(st, ast.Return):
+            if not (done or has(st)):
+                bad.append(st.lineno)
+            return done, False
+        if isinstance(st, ast.Raise):
+            return done, False
+        if isinstance(st, ast.If):
+            d0 = done or has(st.test)
+            a, la = block(st.body, d0)
+            b, lb = block(st.orelse, d0)
+            outs = [x for x, l in ((a, la), (b, lb)) if l]
+            if not outs:
+                return d0, False
+            return all(outs), True
+        if isinstance(st, (ast.For, ast.While)):
+            d0 = done or has(st.iter if isinstance(st, ast.For) else st.test)
+            block(st.body, d0)
+            return d0, True
+        if isinstance(st, ast.With):
+            return block(st.body, done)
+        if isinstance(st, ast.Try):
+            a, _ = block(st.body, done)
+            return done, True
+        if isinstance(st, (ast.FunctionDef, ast.ClassDef)):
+            return done, True
+        return done or has(st), True
+
+    done, live = block(fnode.body, False)
+    if live and not done:
+        bad.append(0)
+    return not bad
 
 
 def pending_at_exit(fnode, helpers):
@@ -130,6 +183,20 @@ def run(ctx):
     base = st.classes.get("_BaseGroupShapes")
     if base is None:
         raise AnalysisError("anchor vanished: _BaseGroupShapes")
+
+    # methods of the group collection every path of which recalculates (e.g. a factory override that recalculates first):
+    # resolved in the MRO of the concrete class whose hook is not a no-op
+    MUST_RECALC.clear()
+    gs0 = st.classes.get("GroupShapes")
+    if gs0 is not None:
+        for _ in range(3):
+            for c in prog.mro(gs0):
+                for name, f in getattr(c, "methods", {}).items():
+                    if name in ("_recalculate_extents",) or name in MUST_RECALC:
+                        continue
+                    if prog.lookup(gs0, name) is f and always_recalcs(f.node):
+                        MUST_RECALC.add(name)
+    ctx.count("must_recalc_methods", len(MUST_RECALC))
 
     # private helpers of the class that insert (one level)
     helpers = set()
